@@ -18,3 +18,5 @@ PROPERTY AssignedIsStored
 PROPERTY Frame
 PROPERTY RefusedChangesNothing
 PROPERTY ReopenShowsFile
+PROPERTY SessionKeepsFile
+PROPERTY ResumeKeepsObject
